@@ -215,7 +215,7 @@ struct ZUC {
 
 impl ZUC {
     fn new(k: &[u8], iv: &[u8]) -> (z: ZUC)
-        requires k@.len() >= 16, iv@.len() >= 16
+        requires k@.len() >= 16, iv@.len() >= 16 //@carveout D43
         ensures cells_ok(z.s@), abs(z) == z_init(k@.subrange(0, 16), iv@.subrange(0, 16))
     {
         proof { lemma_tables(); }
